@@ -515,3 +515,40 @@ package ast
 //@   property C04
 //@   pure
 //@   modifies nothing
+//
+// C07 - inputs contributing to the same package merge into the union of their definitions or the
+// merge fails; no definition of the receiving schema is ever dropped or overwritten.
+//@ func Object.Equal
+//@   property C07
+//@   pure
+//@   modifies nothing
+//
+//@ func SchemaMeta.Equal
+//@   property C07
+//@   inline
+//
+//@ func (*Schema).AddObject
+//@   property C07
+//@   inline
+//
+//@ func (*Schema).Merge
+//@   property C07
+//@   requires other: other != nil && wf(other.Objects)
+//@   requires schema: schema != nil && wf(schema.Objects)
+//@   requires separate: schema.Objects != other.Objects && schema.Objects.records != other.Objects.records && (base(schema.Objects.order) == 0 || base(schema.Objects.order) != base(other.Objects.order))
+//@   requires keyed: forall k: string :: other.Objects.records.has(k) ==> other.Objects.records[k].Name == k
+//@   modifies schema.EntryPoint, schema.EntryPointType, schema.Objects.order, schema.Objects.records[*], schema.Objects.order[*], spare-capacity
+//@   ensures  never_lost: forall k: string :: old(schema.Objects.records.has(k)) ==> schema.Objects.records.has(k) && schema.Objects.records[k] == old(schema.Objects.records[k])
+//@   ensures  union: result == nil ==> (forall k: string :: schema.Objects.records.has(k) == (old(schema.Objects.records.has(k)) || other.Objects.records.has(k)))
+//@   ensures  added: result == nil ==> (forall k: string :: other.Objects.records.has(k) && !old(schema.Objects.records.has(k)) ==> schema.Objects.records[k] == other.Objects.records[k])
+//@   ensures  agree: result == nil ==> (forall k: string :: other.Objects.records.has(k) && old(schema.Objects.records.has(k)) ==> call("ast.Object.Equal", old(schema.Objects.records[k]), other.Objects.records[k]))
+//@   ensures  samepkg: result == nil ==> schema.Package == other.Package && schema.Metadata.Identifier == other.Metadata.Identifier && schema.Metadata.Kind == other.Metadata.Kind && schema.Metadata.Variant == other.Metadata.Variant
+//@   ensures  wf: wf(schema.Objects)
+//@   inlined-loop 0:
+//@     invariant wf: wf(schema.Objects)
+//@     invariant otherwf: wf(orderedMap)
+//@     invariant samemap: schema.Objects == old(schema.Objects) && schema.Objects.records == old(schema.Objects.records) && (base(schema.Objects.order) == old(base(schema.Objects.order)) || fresh(schema.Objects.order))
+//@     invariant never_lost: forall k: string :: old(schema.Objects.records.has(k)) ==> schema.Objects.records.has(k) && schema.Objects.records[k] == old(schema.Objects.records[k])
+//@     invariant union: forall k: string :: schema.Objects.records.has(k) == (old(schema.Objects.records.has(k)) || (orderedMap.records.has(k) && skolem("pos", "entry", k) <= $i))
+//@     invariant added: forall k: string :: orderedMap.records.has(k) && skolem("pos", "entry", k) <= $i && !old(schema.Objects.records.has(k)) ==> schema.Objects.records[k] == orderedMap.records[k]
+//@     invariant agree: err == nil ==> (forall k: string :: orderedMap.records.has(k) && skolem("pos", "entry", k) <= $i && old(schema.Objects.records.has(k)) ==> call("ast.Object.Equal", old(schema.Objects.records[k]), orderedMap.records[k]))
